@@ -184,6 +184,13 @@ def run(prog: Program, rep: Report, tier: str):
     rule_samebin(prog, rep)
     from .bnaf import rule_bnaf_logdet
     rule_bnaf_logdet(prog, rep)
+    # a plain callable used as activation: value and log|derivative| from one value_and_grad
+    from .conform import conform_method
+    conform_method(prog, rep, "C02.bnaf", "flowjax.bijections.block_autoregressive_network._CallableToBijection",
+                   "transform_and_log_det", ["x", "condition"],
+                   "def transform_and_log_det(self, x, condition=None):\n"
+                   "    y, grad = eqx.filter_value_and_grad(self.fn)(x)\n"
+                   "    return y, jnp.log(jnp.abs(grad))\n", "(fn(x), log|fn'(x)|)")
     # sum of the transformer log-dets is log|det J| only for a triangular Jacobian: the last MADE layer is strict
     from .c09 import rule_made_masks
     rule_made_masks(prog, rep, R="C02.triangular")
